@@ -1,6 +1,7 @@
 SPECIFICATION Spec
 CONSTANTS
   MaxSlots = 1
+  OnlyEq = FALSE
 INVARIANT SigsScoped
 INVARIANT InferRecovers
 INVARIANT InferMidTotal
